@@ -171,6 +171,11 @@ class Harness:
         out += self.tr.globals.render()
         n = len(self.threads)
         out.append(f"_Bool g_done[{n + 1}];")
+        rounds = self.tr.cfg.get("seq_rounds") if len(self.threads) > 1 else None
+        if rounds:
+            return self.render_sequentialized(out, rounds)
+        if self.tr.cfg.get("inject") and len(self.threads) == 2:
+            return self.render_injected(out)
         for t in self.threads:
             out.append(f"void thread_{t.name}({', '.join(f'{ct} {nm}' for ct, nm in self.params) or 'void'}) {{")
             out += t.storage.render("  ")
@@ -188,8 +193,134 @@ class Harness:
             cur.append(ln)
         out += pre
         for t in self.threads:
+            if len(self.threads) == 1 and not self.tr.cfg.get("force_async"):
+                # a single role: run it synchronously (no partial-order encoding needed)
+                out.append(f"  thread_{t.name}({', '.join(nm for _ct, nm in self.params)});")
+                continue
             out.append(f"  __CPROVER_ASYNC_{t.tid}: thread_{t.name}({', '.join(nm for _ct, nm in self.params)});")
         if self.threads and self.join_all:
+            out.append("  __CPROVER_assume(" + " && ".join(f"g_done[{t.tid}]" for t in self.threads) + ");")
+        out += post
+        out.append("  return 0;")
+        out.append("}")
+        return "\n".join(out) + "\n"
+
+
+    def render_injected(self, out) -> str:
+        """Two roles A (first thread) and B (second): A runs as straight-line code; B runs to completion, atomically, at one
+        solver-chosen visible operation of A (or before / after A).  This is the context-bounded search A|B|A (two context
+        switches), decided exhaustively; harnesses use it in both directions.  Interleavings that split BOTH roles are
+        outside this mode's claim."""
+        A, B = self.threads
+        plist = ', '.join(f'{ct} {nm}' for ct, nm in self.params) or 'void'
+        args = ', '.join(nm for _ct, nm in self.params)
+        out.append("usize g_inject_at;")
+        out.append(f"void thread_{B.name}({plist}) {{")
+        out += B.storage.render("  ")
+        out += B.lines
+        out.append(f"  g_done[{B.tid}] = 1;")
+        out.append("}")
+        out.append(f"void thread_{A.name}({plist}) {{")
+        out += A.storage.render("  ")
+        gnames = set(self.tr.globals.names)
+
+        def sections(lines):
+            """[(first line index, set of shared globals touched)] for every atomic section"""
+            res, i = [], 0
+            while i < len(lines):
+                if lines[i].lstrip().startswith("__CPROVER_atomic_begin();"):
+                    j, text = i, ""
+                    while True:
+                        text += lines[j] + " "
+                        if "__CPROVER_atomic_end();" in lines[j] or j + 1 >= len(lines):
+                            break
+                        j += 1
+                    res.append((i, {w for w in re.findall(r"[A-Za-z_]\w*", text) if w in gnames}))
+                    i = j + 1
+                else:
+                    i += 1
+            return res
+        fpB = set()
+        for _i, fp in sections(B.lines):
+            fpB |= fp
+        # partial-order reduction: an atomic run of B commutes with every visible operation of A that touches none of the
+        # shared objects B touches, so B only needs to be injected right before the operations of A that do.
+        points = {i for i, fp in sections(A.lines) if fp & fpB}
+        k = 0
+        first = True
+        for i, ln in enumerate(A.lines):
+            if ln.lstrip().startswith("__CPROVER_atomic_begin();") and (i in points or first):
+                first = False
+                k += 1
+                out.append(f"  if (g_inject_at == {k}) {{ thread_{B.name}({args}); }}")
+            out.append(ln)
+        out.append(f"  g_done[{A.tid}] = 1;")
+        out.append("}")
+        out.append("int main(void) {")
+        out += self.main.storage.render("  ")
+        pre, post = [], []
+        cur = pre
+        for ln in self.main.lines:
+            if ln.strip() == "/*POST*/":
+                cur = post
+                continue
+            cur.append(ln)
+        out += pre
+        out.append(f"  g_inject_at = nondet_usize(); __CPROVER_assume(g_inject_at >= 1 && g_inject_at <= {k + 1});")
+        out.append(f"  thread_{A.name}({args});")
+        out.append(f"  if (g_inject_at == {k + 1}) {{ thread_{B.name}({args}); }}")
+        if self.join_all:
+            out.append("  __CPROVER_assume(" + " && ".join(f"g_done[{t.tid}]" for t in self.threads) + ");")
+        out += post
+        out.append("  return 0;")
+        out.append("}")
+        self.inject_points = k + 1
+        return "\n".join(out) + "\n"
+
+    def render_sequentialized(self, out, rounds: int) -> str:
+        """Bounded round-robin sequentialization (Lal/Reps, as in Lazy-CSeq): every thread is a resumable function whose
+        context-switch points are its visible operations (atomic sections); main runs `rounds` rounds, in each round every
+        unfinished thread may run a solver-chosen number of visible operations.  Covers every interleaving with at most
+        `rounds` execution contexts per thread (outside that: outside the claim); within it the search is exhaustive."""
+        decl_re = re.compile(r"^\s*([\w ]+?) (\w+)((?:\[\d+\])*);$")
+        out.append("unsigned char g_budget;")
+        for t in self.threads:
+            decls = [decl_re.match(ln).groups() for ln in t.storage.render("  ") if decl_re.match(ln)]
+            for ty, nm, dims in decls:
+                out.append(f"{ty} {t.name}__{nm}{dims};")
+            out.append(f"unsigned short pc_{t.name};")
+            for ty, nm, dims in decls:
+                out.append(f"#define {nm} {t.name}__{nm}")
+            out.append(f"void thread_{t.name}({', '.join(f'{ct} {nm}' for ct, nm in self.params) or 'void'}) {{")
+            out.append(f"  switch (pc_{t.name}) {{ case 0:;")
+            k = 0
+            for ln in t.lines:
+                if ln.lstrip().startswith("__CPROVER_atomic_begin();"):
+                    k += 1
+                    out.append(f"  if (g_budget == 0) {{ pc_{t.name} = {k}; return; }} g_budget--; case {k}:;")
+                out.append(ln)
+            out.append("  }")
+            out.append(f"  pc_{t.name} = 65535; g_done[{t.tid}] = 1;")
+            out.append("}")
+            for ty, nm, dims in decls:
+                out.append(f"#undef {nm}")
+        out.append("int main(void) {")
+        out += self.main.storage.render("  ")
+        pre, post = [], []
+        cur = pre
+        for ln in self.main.lines:
+            if ln.strip() == "/*POST*/":
+                cur = post
+                continue
+            cur.append(ln)
+        out += pre
+        for t in self.threads:
+            out.append(f"  pc_{t.name} = 0;")
+        args = ', '.join(nm for _ct, nm in self.params)
+        for r in range(rounds):
+            for t in self.threads:
+                out.append(f"  if (!g_done[{t.tid}] && nondet_bool()) {{ g_budget = nondet_uchar(); thread_{t.name}({args}); }}")
+        if self.join_all:
             out.append("  __CPROVER_assume(" + " && ".join(f"g_done[{t.tid}]" for t in self.threads) + ");")
         out += post
         out.append("  return 0;")
